@@ -26,7 +26,7 @@ class C43(core.Prop):
     drivers = ["mc_peek", "s4u_interp"]
     ready = False
     max_workers = 6
-    sizes = {"quick": 300, "thorough": 20000}
+    sizes = {"quick": 120, "thorough": 4000}
     technique = ("property-based testing (Hypothesis): round trip of every observable simcall through the application's serializer and "
                  "the checker's deserializer (mc_peek loop-back), compared field by field with the kernel objects the simcall designates; "
                  "plus bounded simgrid-mc runs of the same programs that must end or fail clearly")
@@ -38,7 +38,7 @@ class C43(core.Prop):
             "AppSide and the checker do.  Oracle: the decoder consumes exactly the bytes that were encoded (none left, none missing); "
             "type, actor, and every object id / parameter of the decoded transition equal those of the kernel objects the observer "
             "designates (read from the live objects, not from the encoded bytes); semaphore capacity as documented by the encoder "
-            "(value - waiting for LOCK/UNLOCK, value for WAIT).  One case in four (of those drawn for it: 1/4) also runs simgrid-mc (reduction none with max-depth 30, or dpor / odpor unbounded, 15 s of CPU) "
+            "(value - waiting for LOCK/UNLOCK, value for WAIT).  One case in four (of those drawn for it: 1/4) also runs simgrid-mc (reduction none with max-depth 30, or dpor / odpor unbounded, 8 s of CPU) "
             "on the program: it must end (exploration ended / deadlock / property violation) or print a clear error; a run that "
             "dies of an uncaught exception or a signal, or in which checker and application all sleep in a read "
             "on their socket without consuming CPU (they wait for each other: a hang, detected from /proc, not from the wall clock) "
@@ -90,7 +90,7 @@ class C43(core.Prop):
                 break
         for l in p.of("final"):
             for e in l.get("depends_errors", []):
-                oc.bad("depends-throws:%s" % "+".join(sorted({e["a"], e["b"]} & {"TESTANY", "WAITANY"}) or [e["a"], e["b"]]),
+                oc.bad("depends-throws:%s" % ("TESTANY" if "TESTANY" in (e["a"], e["b"]) else "+".join(sorted([e["a"], e["b"]]))),
                        "dispatch_depends(%s[alternative %s], %s[alternative %s]) throws %s" % (e["a"], e["a_tc"], e["b"], e["b_tc"], e["what"]))
         for t in sorted(seen):
             oc.labels.append("t-" + t)
@@ -150,7 +150,7 @@ class C43(core.Prop):
         red = case["mc"] if isinstance(case["mc"], str) else "dpor"
         # a depth bound only without reduction: simgrid-mc itself warns that stopping at a fixed depth breaks dpor/odpor
         bound = ["model-check/max-depth:30"] if red == "none" else []
-        r0, hang = peek.run_checker(case["scenario"], ["model-check/reduction:" + red] + bound + mcrun.BASE_CFG, cpu=15, wall=600)
+        r0, hang = peek.run_checker(case["scenario"], ["model-check/reduction:" + red] + bound + mcrun.BASE_CFG, cpu=8, wall=600)
         if r0.wall_exceeded:
             raise core.Inconclusive()
         r = mcrun.McResult(case["scenario"], r0)
